@@ -3,23 +3,25 @@ import Props.C03
 import Props.C16
 import Proofs.Inject
 import Proofs.FillPackets
+import Proofs.DConnectL
 /-!
 # C01 — write then read returns the same packet, field for field
 
-Proved here for the domain `Packet.InDomain` (Props/Domain.lean), which is the C01 domain
-**restricted to packets that are structurally valid MQTT** (protocol name `MQTT` version 5, legal
-subscription option bits, at least one reason code in SUBACK/UNSUBACK): on that domain the encoder's
-output is a frame of the specification's language (C02), which the decoder accepts with the
-specification's view (C03); the view and the first byte determine the packet value
-(Proofs.Inject), so **`ReadPacket` returns the packet that was written, as a value** — every
-accessor equal, nested will included, and re-encoding trivially byte-identical.
+`C01_roundtrip` is the full statement, on the whole C01 domain `Packet.InDomainL`
+(Props/Domain.lean): every packet the constructors and setters build whose `WriteTo` succeeds —
+strings of 0 … 65 535 bytes, remaining length up to 268 435 455, and also the packets that are
+constructible but *not* valid MQTT: a CONNECT with any protocol name and version, a SUBSCRIBE with
+any of the 256 option bytes per filter, a SUBACK/UNSUBACK without reason codes, any reason-code
+byte. **`ReadPacket` returns the packet that was written, as a value** — same dynamic type, every
+accessor equal, nested will included, re-encoding byte-identical — and consumes exactly the frame.
 
-`C01_roundtrip_partial` is therefore not the full statement: the property also covers packets that
-are constructible but not valid MQTT (any protocol name and version, all 256 subscription option
-bytes, SUBACK/UNSUBACK without reason codes, all 256 reason codes are covered). For those the
-round trip is established by the correspondence run only (`RT` oracle on generated packets, all
-boundary lengths), not by a theorem. Full statement, for the record:
-`∀ p in the C01 domain, readPacket (contig (encode p)) = (pkt q, ·) ∧ q.kind = p.kind ∧ q.view = p.view ∧ encode q = encode p`.
+Route. On the structurally valid sub-domain `Packet.InDomain` the encoder's output is a frame of
+the specification's language (C02), which the decoder accepts with the specification's view (C03);
+the view and the first byte determine the packet value (Proofs.Inject). The three relaxations:
+SUBSCRIBE and SUBACK/UNSUBACK go the same route through the *lenient* legality `Spec.SPacket.LegalL`
+(`E_subscribe_L`/`D_subscribe_L`, `E_suback_L`/`D_suback_L`: the decoder never needed those two
+restrictions); CONNECT goes by substitution (`Connect.unmarshal_subst`: the decoder stores the name
+and version and never looks at them again), reducing any name/version to `MQTT`/5.
 -/
 namespace Mq
 open Spec (SPacket)
@@ -50,37 +52,212 @@ theorem firstByte_nibble (sp : SPacket) (h : sp.Legal) : (sp.firstByte >>> 4).to
   have := (C16_decoded sp.firstByte sp.body q hq).1
   rw [← this, hk]
 
-/-- **C01 (on the structurally valid part of the domain)**: `ReadPacket` on the bytes `WriteTo`
-produced — delivered by any reader under any schedule, followed by anything — returns, without
-error, *the packet that was written* (same dynamic type, every field equal), and consumes exactly
-the frame. Sizes are unbounded in the statement: strings of 0 … 65 535 bytes, remaining lengths in
-their one- to four-byte forms. -/
-theorem C01_roundtrip_partial (p : Packet) (h : p.InDomain) (bs : Bytes) (he : p.encode = .bytes bs)
-    (r : Reader) (rest : Bytes) (hd : r.data = bs ++ rest) :
-    (readPacket r).1 = .pkt p ∧ (readPacket r).2.data = rest := by
-  obtain ⟨sp, habs, hleg, hun, hkind, hview⟩ := C02_emits_valid p h bs he
-  obtain ⟨q, hq, hk, hv⟩ := C03_frame sp hleg
-  have hfb := abs_firstByte p h sp habs
-  have hne := kind_ne_zero_of_domain p h
+/-- the core, with the specification as go-between: a packet whose encoding is the `unparse` of an
+abstract packet that the decoder accepts with the specification's view decodes to itself -/
+theorem roundtrip_of_spec (p : Packet) (sp : SPacket) (hkind : sp.kind = p.kind) (hview : sp.view = p.view)
+    (hfb : sp.firstByte = p.fixed)
+    (hD : ∃ q, frameOutcome sp.firstByte sp.body = .pkt q ∧ q.kind = sp.kind ∧ q.view = sp.view)
+    (hc : p.Canon) (hne : p.kind ≠ 0) : frameOutcome p.fixed sp.body = .pkt p := by
+  obtain ⟨q, hq, hk, hv⟩ := hD
+  have hnib : (sp.firstByte >>> 4).toNat = sp.kind := by
+    have := (C16_decoded sp.firstByte sp.body q hq).1
+    rw [← this, hk]
   have hqf : q.fixed = p.fixed := by
-    have := (C16_decoded sp.firstByte sp.body q hq).2 (by rw [firstByte_nibble sp hleg, hkind]; exact hne)
+    have := (C16_decoded sp.firstByte sp.body q hq).2 (by rw [hnib, hkind]; exact hne)
     rw [this, hfb]
   have hqp : q = p :=
-    (Packet.eq_of_view p q (by rw [hk, hkind]) hqf.symm (by rw [hv, hview]) (Packet.canon_of_domain p h)
+    (Packet.eq_of_view p q (by rw [hk, hkind]) hqf.symm (by rw [hv, hview]) hc
       (frameOutcome_canon _ _ q hq) hne).symm
   subst hqp
+  rw [← hfb]; exact hq
+
+/-- a frame determines its body -/
+theorem frameBytes_inj (b0 b1 : UInt8) (x y : Bytes) (hx : x.length < 268435456) (hy : y.length < 268435456)
+    (h : frameBytes b0 x = frameBytes b1 y) : x = y := by
+  simp only [frameBytes, List.cons.injEq] at h
+  have h1 := pureVb_enc x.length hx default x
+  have h2 := pureVb_enc y.length hy default y
+  rw [h.2, h2] at h1
+  simp only [Prod.mk.injEq] at h1
+  exact h1.2.symm
+
+/-- one frame, decoded to the packet itself — on the structurally valid part of the domain -/
+theorem C01_frame_partial (p : Packet) (h : p.InDomain) (bs : Bytes) (he : p.encode = .bytes bs) :
+    ∃ body, bs = frameBytes p.fixed body ∧ body.length < 268435456 ∧ frameOutcome p.fixed body = .pkt p := by
+  obtain ⟨sp, habs, hleg, hun, hkind, hview⟩ := C02_emits_valid p h bs he
+  have hfb := abs_firstByte p h sp habs
+  refine ⟨sp.body, ?_, hleg.2, roundtrip_of_spec p sp hkind hview hfb (C03_frame sp hleg) (Packet.canon_of_domain p h)
+    (kind_ne_zero_of_domain p h)⟩
+  rw [← hun, ← hfb]; rfl
+
+/-- the CONNECT body with the protocol name and version split off -/
+theorem Connect.body?_split (q : Connect) (b : Bytes) (hb : q.body? = some b) :
+    ∃ t, b = encBin q.protocolName ++ q.protocolVersion :: t
+      ∧ (q.setNV Connect.mqtt5 5).body? = some (encBin Connect.mqtt5 ++ 5 :: t) := by
+  simp only [Connect.body?, Option.map_eq_some_iff] at hb
+  obtain ⟨pl, hpl, rfl⟩ := hb
+  refine ⟨q.flags :: (encU16 q.keepAlive ++ encVb q.props.length ++ q.props ++ pl), ?_, ?_⟩
+  · simp [Connect.varHeader]
+  · have : (q.setNV Connect.mqtt5 5).payload? = some pl := hpl
+    simp only [Connect.body?, this, Option.map_some, Option.some.injEq]
+    simp [Connect.varHeader, Connect.setNV, Connect.props]
+
+theorem Connect.canon_of_domainW (k : Nat) (c : Connect) (h : c.InDomainW k) : c.Canon := by
+  obtain ⟨_, _, _, _, hwok, hnone, _⟩ := h
+  exact ⟨fun w hw => ⟨(hwok w hw).2.2.2.2.2.2.1, (hwok w hw).1⟩, fun hw => (hnone hw).2.1⟩
+
+/-- the twin's length bound in `Connect.InDomainL` is implied by the packet's own -/
+theorem Connect.twin_bound (q : Connect) (h : ∀ b, q.body? = some b → b.length < 268435456) :
+    ∀ b, (q.setNV Connect.mqtt5 5).body? = some b → b.length < 268435456 + 4 := by
+  intro b hb
+  cases hq : q.body? with
+  | none =>
+    have : (q.setNV Connect.mqtt5 5).body? = none := by
+      simp only [Connect.body?, Option.map_eq_none_iff] at hq ⊢; exact hq
+    rw [this] at hb; cases hb
+  | some b0 =>
+    obtain ⟨t, rfl, h0⟩ := Connect.body?_split q b0 hq
+    rw [h0] at hb; simp only [Option.some.injEq] at hb; subst hb
+    have := h _ hq
+    have hn : Connect.mqtt5.length = 4 := rfl
+    simp only [List.length_append, List.length_cons, encBin, encU16, hn] at this ⊢
+    omega
+
+theorem Connect.setNV_self (q : Connect) : (q.setNV Connect.mqtt5 5).setNV q.protocolName q.protocolVersion = q := rfl
+
+/-- one frame, decoded to the packet itself — **on the whole C01 domain** -/
+theorem C01_frame (p : Packet) (h : p.InDomainL) (bs : Bytes) (he : p.encode = .bytes bs) :
+    ∃ body, bs = frameBytes p.fixed body ∧ body.length < 268435456 ∧ frameOutcome p.fixed body = .pkt p := by
+  cases p with
+  | connect q =>
+    obtain ⟨hname, hdom, hlen⟩ := h
+    simp only [Packet.encode] at he
+    cases hb : q.encode? with
+    | none => simp [hb] at he
+    | some b =>
+      simp only [hb, Packet.Enc.bytes.injEq] at he; subst he
+      simp only [Connect.encode?, Option.map_eq_some_iff] at hb
+      obtain ⟨body, hbody, rfl⟩ := hb
+      have hfix : q.fixed = 0x10 := hdom.1
+      refine ⟨body, by simp only [frame, frameBytes, Packet.fixed], hlen body hbody, ?_⟩
+      obtain ⟨t, rfl, hb0⟩ := Connect.body?_split q body hbody
+      -- the `MQTT`/5 twin decodes to itself
+      have henc0 : (q.setNV Connect.mqtt5 5).encode? = some (frame 0x10 (encBin Connect.mqtt5 ++ 5 :: t)) := by
+        simp only [Connect.encode?, hb0, Option.map_some]
+        show some (frame q.fixed _) = _
+        rw [hfix]
+      obtain ⟨⟨hleg, hl4⟩, _, hview, hb0'⟩ := E_connect_core 4 (q.setNV Connect.mqtt5 5) hdom _ henc0
+      rw [hb0] at hb0'
+      simp only [Option.some.injEq] at hb0'
+      have hout := roundtrip_of_spec (.connect (q.setNV Connect.mqtt5 5)) (q.setNV Connect.mqtt5 5).abs rfl hview
+        (by show (0x10 : UInt8) = q.fixed; rw [hfix])
+        (by
+          obtain ⟨x, h1, h2⟩ := D_connect_core _ _ _ _ _ _ _ hleg hl4
+          exact ⟨_, h1, rfl, h2⟩)
+        (Connect.canon_of_domainW 4 _ hdom) (by simp [Packet.kind])
+      rw [← hb0'] at hout
+      simp only [Packet.fixed] at hout ⊢
+      have hf0 : (q.setNV Connect.mqtt5 5).fixed = 0x10 := hfix
+      rw [hf0] at hout; rw [hfix]
+      unfold frameOutcome at hout ⊢
+      rw [if_neg (by simp [encBin])] at hout ⊢
+      have hd : Packet.dispatch 0x10 = .connect { fixed := 0x10 } := rfl
+      rw [hd] at hout ⊢
+      simp only [Packet.unmarshal] at hout ⊢
+      rw [Connect.unmarshal_subst _ rfl q.protocolName hname q.protocolVersion t]
+      rcases hu : ({ fixed := 0x10 } : Connect).unmarshal (encBin Connect.mqtt5 ++ 5 :: t) with ⟨q', st⟩
+      rw [hu] at hout
+      cases st <;> simp only [RP.pkt.injEq, Packet.connect.injEq, reduceCtorEq] at hout
+      subst hout
+      simp only [Connect.setNV_self]
+  | subscribe q =>
+    simp only [Packet.encode, Packet.Enc.bytes.injEq] at he; subst he
+    obtain ⟨hl, hun, hview⟩ := E_subscribe_L q h
+    have hfb : q.abs.firstByte = q.fixed := h.1.symm ▸ rfl
+    refine ⟨q.abs.body, ?_, hl.2, roundtrip_of_spec (.subscribe q) q.abs rfl hview hfb ?_ trivial (by simp [Packet.kind])⟩
+    · rw [← hun]; show _ = frameBytes q.fixed _; rw [← hfb]; rfl
+    · obtain ⟨x, h1, h2⟩ := D_subscribe_L _ _ _ hl; exact ⟨_, h1, rfl, h2⟩
+  | suback q =>
+    simp only [Packet.encode, Packet.Enc.bytes.injEq] at he; subst he
+    obtain ⟨hl, hun, hk, hview, hfb⟩ := E_suback_L 9 q h
+    refine ⟨(SubAck.abs 9 q).body, ?_, hl.2, roundtrip_of_spec (.suback q) _ hk hview hfb ?_ trivial (by simp [Packet.kind])⟩
+    · rw [← hun]; show _ = frameBytes q.fixed _; rw [← hfb]; rfl
+    · obtain ⟨x, h1, h2, h3⟩ := D_suback_L 9 _ _ _ hl; exact ⟨x, h1, by rw [h2]; rfl, h3⟩
+  | unsuback q =>
+    simp only [Packet.encode, Packet.Enc.bytes.injEq] at he; subst he
+    obtain ⟨hl, hun, hk, hview, hfb⟩ := E_suback_L 11 q h
+    refine ⟨(SubAck.abs 11 q).body, ?_, hl.2, roundtrip_of_spec (.unsuback q) _ hk hview hfb ?_ trivial (by simp [Packet.kind])⟩
+    · rw [← hun]; show _ = frameBytes q.fixed _; rw [← hfb]; rfl
+    · obtain ⟨x, h1, h2, h3⟩ := D_suback_L 11 _ _ _ hl; exact ⟨x, h1, by rw [h2]; rfl, h3⟩
+  | undefined q => exact C01_frame_partial (.undefined q) h bs he
+  | connack q => exact C01_frame_partial (.connack q) h bs he
+  | publish q => exact C01_frame_partial (.publish q) h bs he
+  | puback q => exact C01_frame_partial (.puback q) h bs he
+  | pubrec q => exact C01_frame_partial (.pubrec q) h bs he
+  | pubrel q => exact C01_frame_partial (.pubrel q) h bs he
+  | pubcomp q => exact C01_frame_partial (.pubcomp q) h bs he
+  | unsubscribe q => exact C01_frame_partial (.unsubscribe q) h bs he
+  | pingreq q => exact C01_frame_partial (.pingreq q) h bs he
+  | pingresp q => exact C01_frame_partial (.pingresp q) h bs he
+  | disconnect q => exact C01_frame_partial (.disconnect q) h bs he
+  | auth q => exact C01_frame_partial (.auth q) h bs he
+
+/-- **C01**: `ReadPacket` on the bytes `WriteTo` produced — delivered by any reader under any
+schedule, followed by anything — returns, without error, *the packet that was written* (same
+dynamic type, every field equal), and consumes exactly the frame. For every packet of the C01
+domain; sizes are unbounded in the statement: strings of 0 … 65 535 bytes, remaining lengths in
+their one- to four-byte forms. -/
+theorem C01_roundtrip (p : Packet) (h : p.InDomainL) (bs : Bytes) (he : p.encode = .bytes bs)
+    (r : Reader) (rest : Bytes) (hd : r.data = bs ++ rest) :
+    (readPacket r).1 = .pkt p ∧ (readPacket r).2.data = rest := by
+  obtain ⟨body, rfl, hlen, hout⟩ := C01_frame p h bs he
   have hp := (readPacket_pure r).1
-  rw [hd, ← hun] at hp
-  have : sp.unparse = frameBytes sp.firstByte sp.body := rfl
-  rw [this, purePacket_frame sp.firstByte sp.body rest hleg.2] at hp
+  rw [hd, purePacket_frame p.fixed body rest hlen] at hp
   simp only [Prod.mk.injEq] at hp
-  exact ⟨by rw [hp.1, hq], hp.2⟩
+  exact ⟨by rw [hp.1, hout], hp.2⟩
+
+/-- the structurally valid domain is inside the C01 domain -/
+theorem Packet.inDomainL_of_inDomain (p : Packet) (h : p.InDomain) (bs : Bytes) (he : p.encode = .bytes bs) :
+    p.InDomainL := by
+  cases p with
+  | connect q =>
+    obtain ⟨h1, h2, h3, h4⟩ := h
+    have hq : q.setNV Connect.mqtt5 5 = q := by
+      cases q; simp only [Connect.setNV] at h2 h3 ⊢; subst h2 h3; rfl
+    obtain ⟨a4, a5, a6, a7, a8, a9, a10, a11, a12, hlen⟩ := h4
+    exact ⟨by rw [h2]; unfold strOK; decide,
+      by show (q.setNV Connect.mqtt5 5).InDomainW 4
+         rw [hq]; exact ⟨h1, h2, h3, a4, a5, a6, a7, a8, a9, a10, a11, a12, fun b hb => by have := hlen b hb; omega⟩,
+      hlen⟩
+  | subscribe q =>
+    obtain ⟨a, b, c, d, e, f⟩ := h
+    exact ⟨a, b, c, d, fun x hx => (e x hx).1, f⟩
+  | suback q => obtain ⟨a, b, c, d, e, f⟩ := h; exact ⟨a, b, c, d, f⟩
+  | unsuback q => obtain ⟨a, b, c, d, e, f⟩ := h; exact ⟨a, b, c, d, f⟩
+  | undefined q => exact h
+  | connack q => exact h
+  | publish q => exact h
+  | puback q => exact h
+  | pubrec q => exact h
+  | pubrel q => exact h
+  | pubcomp q => exact h
+  | unsubscribe q => exact h
+  | pingreq q => exact h
+  | pingresp q => exact h
+  | disconnect q => exact h
+  | auth q => exact h
+
+/-- the same on the structurally valid part alone (the earlier, weaker statement) -/
+theorem C01_roundtrip_partial (p : Packet) (h : p.InDomain) (bs : Bytes) (he : p.encode = .bytes bs)
+    (r : Reader) (rest : Bytes) (hd : r.data = bs ++ rest) :
+    (readPacket r).1 = .pkt p ∧ (readPacket r).2.data = rest :=
+  C01_roundtrip p (p.inDomainL_of_inDomain h bs he) bs he r rest hd
 
 /-- the consequences the property lists: same type, every accessor (nested will, user properties,
 subscription identifiers, filters, reason codes in order), and byte-identical re-encoding -/
-theorem C01_accessors_and_reencoding (p : Packet) (h : p.InDomain) (bs : Bytes) (he : p.encode = .bytes bs) :
+theorem C01_accessors_and_reencoding (p : Packet) (h : p.InDomainL) (bs : Bytes) (he : p.encode = .bytes bs) :
     ∃ q, (readPacket (Reader.contig bs)).1 = .pkt q ∧ q.kind = p.kind ∧ q.view = p.view ∧ q.encodeG = .bytes bs := by
-  obtain ⟨h1, _⟩ := C01_roundtrip_partial p h bs he (Reader.contig bs) [] (by simp [Reader.contig])
+  obtain ⟨h1, _⟩ := C01_roundtrip p h bs he (Reader.contig bs) [] (by simp [Reader.contig])
   exact ⟨p, h1, rfl, rfl, by rw [Packet.encodeG_eq, he]⟩
 
 /-- non-vacuity and the boundary the property was written for: a PUBLISH whose topic is `n` bytes
@@ -102,4 +279,27 @@ example (n : Nat) (hn : n < 65536) : (Packet.publish { topicName := List.replica
   · simp only [Publish.body, Publish.varHeader, hh, hp]
     simp [encVb, encVbAux]; omega
 
+/-- non-vacuity of the relaxations: a CONNECT named `MQIsdp` version 3, a SUBSCRIBE whose option
+byte is 0xff, an UNSUBACK with no reason code — each in the C01 domain -/
+example : (Packet.subscribe { packetID := 1, filters := [{ filter := [0x61], options := 0xff }] }).InDomainL := by
+  refine ⟨rfl, fun v hv => by simp at hv, fun kv hkv => by simp at hkv, by simp, ?_, by decide⟩
+  intro f hf; simp only [List.mem_singleton] at hf; subst hf; unfold strOK; decide
+example : (Packet.unsuback { fixed := 0xb0, packetID := 1 }).InDomainL :=
+  ⟨Or.inr rfl, rfl, by unfold strOK; decide, fun kv hkv => by simp at hkv, by decide⟩
+
+example : (Packet.connect (Connect.new.setNV [0x4d, 0x51, 0x49, 0x73, 0x64, 0x70] 3)).InDomainL := by
+  have hs : ∀ b : Bytes, b.length < 65536 → strOK b := fun _ h => h
+  refine ⟨hs _ (by decide), ?_, ?_⟩
+  · show Connect.new.InDomainW 4
+    refine ⟨rfl, rfl, rfl, Connect.new_inv, ?_, fun _ => ⟨rfl, rfl, by decide⟩, hs _ (by decide), hs _ (by decide),
+      hs _ (by decide), hs _ (by decide), hs _ (by decide), ?_, ?_⟩
+    · intro w hw; cases hw
+    · intro kv hkv; cases hkv
+    · intro b hb
+      have h : Connect.new.body? = some [0, 4, 0x4d, 0x51, 0x54, 0x54, 5, 0, 0, 0, 0, 0, 0] := by decide
+      rw [h] at hb; cases hb; decide
+  · intro b hb
+    have h : (Connect.new.setNV [0x4d, 0x51, 0x49, 0x73, 0x64, 0x70] 3).body?
+        = some [0, 6, 0x4d, 0x51, 0x49, 0x73, 0x64, 0x70, 3, 0, 0, 0, 0, 0, 0] := by decide
+    rw [h] at hb; cases hb; decide
 end Mq
